@@ -10,12 +10,15 @@ for sid in ids:
     meta = json.load(open(f'{d}/meta.json'))
     if subprocess.call(['git', '-C', '/repo', 'apply', f'{d}/patch.diff']) != 0:
         print(sid, 'PATCH DOES NOT APPLY'); continue
-    caught, missed, detail = [], [], {}
+    caught, missed, detail, rates = [], [], {}, {}
     try:
         for prop in meta['checks_to_run']:
             env = dict(os.environ, VERIF_SCALE=scale)
             p = subprocess.run(['./bin/check', prop, 'quick'], cwd='/verif', env=env, capture_output=True, text=True)
             rules = sorted(set(re.findall(r'^  rule=(\S+)', p.stdout, re.M)))
+            m = re.search(r'^%s: (\d+) runs .*?violating runs: (\{.*?\});' % prop, p.stdout, re.M)
+            if m:
+                rates[prop] = {'runs': int(m.group(1)), 'violating_runs': m.group(2)}
             if p.returncode == 1 and rules:
                 caught.append(prop); detail[prop] = rules
             else:
@@ -27,6 +30,7 @@ for sid in ids:
         for f in glob.glob('/verif/replays/*.json'): os.remove(f)
     meta['caught_by'] = [f'{p}: ' + ', '.join(detail[p]) for p in caught]
     meta['missed_by'] = missed
+    meta['hit_rates'] = rates
     meta['checks_run'] = f'./bin/check <property> quick with VERIF_SCALE={scale} VERIF_SEED=1 for ' + ', '.join(meta['checks_to_run']) + ' with the patch applied to /repo (undone afterwards)'
     json.dump(meta, open(f'{d}/meta.json', 'w'), indent=1)
     print(sid, 'caught by', meta['caught_by'], 'missed by', missed, flush=True)
